@@ -1,21 +1,12 @@
-// globgen writes, for each listed package directory of the repository, a Go file that exposes the
-// addresses of all package-level variables (VerifGlobals), and an overlay file that adds those
-// files to the packages at build time. /repo itself is not touched.
-//
-//	globgen -repo /repo -out <dir> knx/dpt knx/cemi ...
+// globgen -repo /repo -out <dir> knx/dpt knx/cemi ... : see package globlib.
 package main
 
 import (
-	"encoding/json"
 	"flag"
 	"fmt"
-	"go/ast"
-	"go/parser"
-	"go/token"
 	"os"
-	"path/filepath"
-	"sort"
-	"strings"
+
+	"verifh/enum/globlib"
 )
 
 func main() {
@@ -26,55 +17,7 @@ func main() {
 		fmt.Fprintln(os.Stderr, "INFRA-ERROR globgen: need -out")
 		os.Exit(2)
 	}
-	overlay := map[string]string{}
-	for _, rel := range flag.Args() {
-		dir := filepath.Join(*repo, rel)
-		fset := token.NewFileSet()
-		pkgs, err := parser.ParseDir(fset, dir, func(fi os.FileInfo) bool { return !strings.HasSuffix(fi.Name(), "_test.go") }, 0)
-		if err != nil {
-			fmt.Fprintln(os.Stderr, "INFRA-ERROR globgen:", err)
-			os.Exit(2)
-		}
-		for name, pkg := range pkgs {
-			var vars []string
-			for _, f := range pkg.Files {
-				for _, d := range f.Decls {
-					gd, ok := d.(*ast.GenDecl)
-					if !ok || gd.Tok != token.VAR {
-						continue
-					}
-					for _, sp := range gd.Specs {
-						for _, id := range sp.(*ast.ValueSpec).Names {
-							if id.Name != "_" {
-								vars = append(vars, id.Name)
-							}
-						}
-					}
-				}
-			}
-			sort.Strings(vars)
-			var b strings.Builder
-			fmt.Fprintf(&b, "// Code generated by /verif/enum/cmd/globgen. DO NOT EDIT.\n\npackage %s\n\n", name)
-			b.WriteString("// VerifGlobals returns the names and addresses of all package-level variables.\nfunc VerifGlobals() ([]string, []interface{}) {\n\treturn []string{")
-			for _, v := range vars {
-				fmt.Fprintf(&b, "%q, ", v)
-			}
-			b.WriteString("}, []interface{}{")
-			for _, v := range vars {
-				fmt.Fprintf(&b, "&%s, ", v)
-			}
-			b.WriteString("}\n}\n")
-			dst := filepath.Join(*out, "globals", rel, "zz_verif_globals.go")
-			os.MkdirAll(filepath.Dir(dst), 0o755)
-			if err := os.WriteFile(dst, []byte(b.String()), 0o644); err != nil {
-				fmt.Fprintln(os.Stderr, "INFRA-ERROR globgen:", err)
-				os.Exit(2)
-			}
-			overlay[filepath.Join(dir, "zz_verif_globals.go")] = dst
-		}
-	}
-	j, _ := json.MarshalIndent(map[string]interface{}{"Replace": overlay}, "", " ")
-	if err := os.WriteFile(filepath.Join(*out, "globals-overlay.json"), j, 0o644); err != nil {
+	if _, err := globlib.Generate(*repo, *out, flag.Args()...); err != nil {
 		fmt.Fprintln(os.Stderr, "INFRA-ERROR globgen:", err)
 		os.Exit(2)
 	}
